@@ -132,6 +132,19 @@ Lemma call_sub_const ro rep l : sir_call (VFun (of_string "sub_const")) (VList [
 Proof. reflexivity. Qed.
 End D.
 
+(* a dispatcher that answers these names as sir_call does (it may serve other names too: the stages of anonymize_io in RefIo.v) *)
+Definition sir_names : list string := ["search"; "groupdict"; "group"; "sub"; "sub_const"; "cisco_type7.using.hash"; "md5_crypt.using.hash"; "sha512_crypt.using.hash"]%string.
+Definition agrees_with_sir_call (pc : pyval -> pyval -> PyLib.res) (orc : oracle) (tbl : list item) : Prop :=
+  forall s a, In s sir_names -> pc (VFun (of_string s)) a = sir_call orc tbl (VFun (of_string s)) a.
+Lemma sir_call_agrees orc tbl : agrees_with_sir_call (sir_call orc tbl) orc tbl. Proof. intros s a _. reflexivity. Qed.
+Lemma agrees_passlib pc orc tbl : agrees_with_sir_call pc orc tbl -> passlib_answers_as_the_model pc orc.
+Proof.
+  intro H. destruct (sir_passlib orc tbl) as (A & B & C). split; [|split]; intros.
+  - rewrite H by (cbn; tauto). apply A.
+  - rewrite H by (cbn; tauto). apply B.
+  - rewrite H by (cbn; tauto). apply C.
+Qed.
+
 (* ---- replace_matching_item ---- *)
 Definition vnum (o : option nat) : pyval := match o with Some n => VInt (Z.of_nat n) | None => VNone end.
 Definition enc_item (ki : nat * item) : pyval := VTuple [VInt (Z.of_nat (fst ki)); vnum (snd (fst (snd ki)))].
@@ -186,23 +199,37 @@ Proof. exact (gen_extract_enclosing_refines_fuel pc fuel v h t). Qed.
 Lemma bind_assoc {A B C} (m : ctl A) (f : A -> ctl B) (g : B -> ctl C) : PyLib.bind (PyLib.bind m f) g = PyLib.bind m (fun x => PyLib.bind (f x) g).
 Proof. destruct m; reflexivity. Qed.
 Lemma scrub_msg_is : g__LINE_SCRUBBED_MESSAGE = vstr LINE_SCRUBBED_MESSAGE. Proof. reflexivity. Qed.
-Lemma value_need_ok orc tbl fuel secret lk reserved salt anon lk' :
+Lemma value_need_ok pc orc fuel secret lk reserved salt anon lk' : passlib_answers_as_the_model pc orc ->
   table_bytes lk -> keys_unique lk -> (value_need secret lk salt <= fuel)%nat -> anonymize_value orc secret lk reserved salt = Done (anon, lk') ->
-  gen__anonymize_value (sir_call orc tbl) fuel (vstr secret) (vlook lk) (vres reserved) (vstr salt) = Normal (VTuple [vstr anon; vlook lk']).
+  gen__anonymize_value pc fuel (vstr secret) (vlook lk) (vres reserved) (vstr salt) = Normal (VTuple [vstr anon; vlook lk']).
 Proof.
-  intros Hb Hu Hn E. unfold value_need in Hn.
-  apply (gen_anonymize_value_is_the_model (sir_call orc tbl) orc (sir_passlib orc tbl) fuel secret lk reserved salt anon lk'); try assumption; [lia|].
+  intros Hp Hb Hu Hn E. unfold value_need in Hn.
+  apply (gen_anonymize_value_is_the_model pc orc Hp fuel secret lk reserved salt anon lk'); try assumption; [lia|].
   intros c Ec. rewrite Ec in Hn. lia.
 Qed.
 
-Theorem gen_rmi_refines orc tbl (groups : list (list (nat * item))) reserved salt line lookup out lookup' fuel :
+Theorem gen_rmi_refines pc orc tbl (groups : list (list (nat * item))) reserved salt line lookup out lookup' fuel :
+  agrees_with_sir_call pc orc tbl ->
   Forall (consistent tbl) groups -> table_bytes orc -> table_bytes lookup -> keys_unique lookup ->
   (rmi_need orc reserved salt (map (map snd) groups) line lookup <= fuel)%nat ->
   rmi_model orc reserved salt (map (map snd) groups) line lookup = Done (out, lookup') ->
-  gen_replace_matching_item (sir_call orc tbl) fuel (VList (map enc_group groups)) (vstr line) (vlook lookup) (vstr salt) (vres reserved)
+  gen_replace_matching_item pc fuel (VList (map enc_group groups)) (vstr line) (vlook lookup) (vstr salt) (vres reserved)
   = Normal (VTuple [vstr out; vlook lookup']).
 Proof.
-  intros Hcons Horc Hbytes Huniq. unfold rmi_need, rmi_model, gen_replace_matching_item.
+  intros Hag Hcons Horc Hbytes Huniq.
+  assert (pcall_search : forall ro l, pc (VFun (of_string "search")) (VList [ro; vstr l]) =
+            match re_of tbl ro with Some (rx, _, _) => match search l rx with Some _ => Normal (VTuple [ro; vstr l]) | None => Normal VNone end | None => Exc TypeError end)
+    by (intros; rewrite Hag by (cbn; tauto); apply call_search).
+  assert (pcall_groupdict : forall ro l, pc (VFun (of_string "groupdict")) (VList [VTuple [ro; vstr l]]) =
+            match re_of tbl ro with Some (_, _, pidx) => Normal (VDict (match pidx with Some _ => [(S_ "prefix", VNone)] | None => [] end)) | None => Exc TypeError end)
+    by (intros; rewrite Hag by (cbn; tauto); apply call_groupdict).
+  assert (pcall_group : forall ro l key, pc (VFun (of_string "group")) (VList [VTuple [ro; vstr l]; key]) = group_of tbl ro (map Z.of_N l) key)
+    by (intros; rewrite Hag by (cbn; tauto); apply call_group).
+  assert (pcall_sub : forall ro rep l, pc (VFun (of_string "sub")) (VList [ro; vstr rep; vstr l]) = sub_of tbl ro (map Z.of_N rep) (map Z.of_N l))
+    by (intros; rewrite Hag by (cbn; tauto); apply call_sub).
+  assert (pcall_sub_const : forall ro rep l, pc (VFun (of_string "sub_const")) (VList [ro; vstr rep; vstr l]) = sub_of tbl ro (map Z.of_N rep) (map Z.of_N l))
+    by (intros; rewrite Hag by (cbn; tauto); apply call_sub_const).
+  pose proof (agrees_passlib pc orc tbl Hag) as Hpl. unfold rmi_need, rmi_model, gen_replace_matching_item.
   rewrite gen_split_line_refines. destruct (split_line line) as [[leading words] trailing].
   cbn [PyLib.bind unpack3]. change (VStr [32%Z]) with (vstr [32%N]). rewrite py_join_vstr. cbn [PyLib.bind].
   destruct (extract_enclosing (join [32%N] words) leading trailing) as [[leading' oline] trailing'] eqn:Eenc.
@@ -223,24 +250,24 @@ Proof.
     | Some (Raised _) => True
     end).
   { intros k [[rx num] pidx] ln lk fd a6 j12 j13 j14 j15 j16 Hnth Hb Hu Hneed. unfold apply_item, item_need in *. subst IB S0 S1. cbv beta iota.
-    cbn [enc_item fst snd unpack2 PyLib.bind]. rewrite call_search, re_of_nat, Hnth.
+    cbn [enc_item fst snd unpack2 PyLib.bind]. rewrite pcall_search, re_of_nat, Hnth.
     destruct (search ln rx) as [[[a b] c]|] eqn:Es.
     2:{ cbn [PyLib.bind is_none truthy PyLib.bindS]. do 5 eexists. reflexivity. }
     cbn [PyLib.bind is_none truthy PyLib.bindS].
     destruct num as [n|]; cbn [vnum is_none truthy PyLib.bindS PyLib.bind].
-    2:{ rewrite scrub_msg_is, call_sub. unfold sub_of. rewrite re_of_nat, Hnth, !to_str_vstr.
+    2:{ rewrite scrub_msg_is, pcall_sub. unfold sub_of. rewrite re_of_nat, Hnth, !to_str_vstr.
         pose (cbm := fun (st : unit) (_ _ : nat) (_ : caps) => (st, LINE_SCRUBBED_MESSAGE : list chr)).
         repeat match goal with |- context [sub_fn ln rx ?cb tt] => lazymatch cb with cbm => fail | _ => change cb with cbm end end.
         destruct (sub_fn ln rx cbm tt) as [[u l]|]; [|exact I].
         cbn [PyLib.bind PyLib.bindS]. split; [do 5 eexists; reflexivity|split; assumption]. }
-    rewrite call_groupdict, re_of_nat, Hnth. cbn [PyLib.bind].
+    rewrite pcall_groupdict, re_of_nat, Hnth. cbn [PyLib.bind].
     (* the text before the secret ("prefix" group, when the pattern has one) *)
     assert (Epre : exists vp, PyLib.bind (py_in (VStr [112;114;101;102;105;120]%Z) (VDict match pidx with Some _ => [(S_ "prefix", VNone)] | None => [] end))
-               (fun t13 => if truthy t13 then PyLib.bind (sir_call orc tbl (VFun (of_string "group")) (VList [VTuple [VInt (Z.of_nat k); vstr ln]; VStr [112;114;101;102;105;120]%Z])) (fun t14 => Normal t14) else Normal (VStr [])) = Normal vp
+               (fun t13 => if truthy t13 then PyLib.bind (pc (VFun (of_string "group")) (VList [VTuple [VInt (Z.of_nat k); vstr ln]; VStr [112;114;101;102;105;120]%Z])) (fun t14 => Normal t14) else Normal (VStr [])) = Normal vp
              /\ match (match pidx with Some p => match group ln a b c p with Some t => Some t | None => None end | None => Some [] end) with Some pre => vp = vstr pre | None => vp = VNone end).
     { destruct pidx as [p|].
       - replace (py_in (VStr [112;114;101;102;105;120]%Z) (VDict [(S_ "prefix", VNone)])) with (@Normal pyval (VBool true)) by reflexivity.
-        cbn [PyLib.bind truthy]. rewrite call_group. unfold group_of. rewrite re_of_nat, Hnth, to_str_vstr, Es.
+        cbn [PyLib.bind truthy]. rewrite pcall_group. unfold group_of. rewrite re_of_nat, Hnth, to_str_vstr, Es.
         destruct (group ln a b c p); cbn [PyLib.bind]; eexists; split; reflexivity.
       - cbn. eexists. split; reflexivity. }
     destruct Epre as (vp & Evp & Hvp).
@@ -255,11 +282,11 @@ Proof.
     split; [|split; assumption].
     do 5 eexists.
     match goal with |- PyLib.bind ?m (fun t13 => PyLib.bind (@?f t13) ?g) = _ => rewrite <- (bind_assoc m f g) end.
-    rewrite Evp. cbn [PyLib.bind]. rewrite call_group. unfold group_of. rewrite re_of_nat, Hnth, to_str_vstr, Es.
+    rewrite Evp. cbn [PyLib.bind]. rewrite pcall_group. unfold group_of. rewrite re_of_nat, Hnth, to_str_vstr, Es.
     replace (Z.of_nat n <? 0)%Z with false by (symmetry; apply Z.ltb_ge; lia). rewrite Nat2Z.id, Egn. cbn [PyLib.bind].
 
-    rewrite (value_need_ok orc tbl fuel secret lk reserved salt anon lk' Hb Hu Hneed Eav). cbn [PyLib.bind unpack2].
-    rewrite RefJunEnc.py_add_vstr. cbn [PyLib.bind]. rewrite call_sub_const. unfold sub_of. rewrite re_of_nat, Hnth, !to_str_vstr.
+    rewrite (value_need_ok pc orc fuel secret lk reserved salt anon lk' Hpl Hb Hu Hneed Eav). cbn [PyLib.bind unpack2].
+    rewrite RefJunEnc.py_add_vstr. cbn [PyLib.bind]. rewrite pcall_sub_const. unfold sub_of. rewrite re_of_nat, Hnth, !to_str_vstr.
     repeat match goal with |- context [sub_fn ln rx ?cb tt] => lazymatch cb with cbm => fail | _ => change cb with cbm end end.
     rewrite Esub. cbn [PyLib.bind]. reflexivity. }
   (* the inner loop over one group *)
@@ -344,7 +371,21 @@ Theorem gen_replace_matching_item_is_the_model orc reserved salt line lookup out
   = Normal (VTuple [vstr out; vlook lookup']).
 Proof.
   intros Ho Hb Hu Hn E. rewrite rmi_model_is in E.
-  apply (gen_rmi_refines orc (concat PWD_REGEXES) (index_groups 0 PWD_REGEXES) reserved salt line lookup out lookup' fuel); try assumption.
+  apply (gen_rmi_refines (sir_call orc (concat PWD_REGEXES)) orc (concat PWD_REGEXES) (index_groups 0 PWD_REGEXES) reserved salt line lookup out lookup' fuel (sir_call_agrees _ _)); try assumption.
+  all: try (now rewrite index_groups_snd).
+  exact (index_groups_consistent PWD_REGEXES []).
+Qed.
+
+Theorem gen_replace_matching_item_is_the_model_for pc orc reserved salt line lookup out lookup' fuel :
+  agrees_with_sir_call pc orc (concat PWD_REGEXES) ->
+  table_bytes orc -> table_bytes lookup -> keys_unique lookup ->
+  (rmi_need orc reserved salt PWD_REGEXES line lookup <= fuel)%nat ->
+  replace_matching_item orc reserved salt line lookup = Done (out, lookup') ->
+  gen_replace_matching_item pc fuel (VList (map enc_group (index_groups 0 PWD_REGEXES))) (vstr line) (vlook lookup) (vstr salt) (vres reserved)
+  = Normal (VTuple [vstr out; vlook lookup']).
+Proof.
+  intros Hag Ho Hb Hu Hn E. rewrite rmi_model_is in E.
+  apply (gen_rmi_refines pc orc (concat PWD_REGEXES) (index_groups 0 PWD_REGEXES) reserved salt line lookup out lookup' fuel Hag); try assumption.
   all: try (now rewrite index_groups_snd).
   exact (index_groups_consistent PWD_REGEXES []).
 Qed.
